@@ -1046,8 +1046,12 @@ func evalAxisOrderFn(fn *ssa.Function, bind map[ssa.Value]string, crs ssa.Value,
 	if depth > 3 {
 		return "", "nests helpers too deeply"
 	}
+	var curFrame *boolFrame
 	var strOf func(v ssa.Value) (string, bool)
 	strOf = func(v ssa.Value) (string, bool) {
+		if curFrame != nil {
+			v = curFrame.callerValue(resolveValue(v))
+		}
 		if s, ok := bind[v]; ok {
 			return s, true
 		}
@@ -1073,6 +1077,7 @@ func evalAxisOrderFn(fn *ssa.Function, bind map[ssa.Value]string, crs ssa.Value,
 		return "", false
 	}
 	atom := func(fr *boolFrame, v ssa.Value) (string, bool, bool) {
+		curFrame = fr
 		switch x := v.(type) {
 		case *ssa.BinOp:
 			if x.Op == token.EQL || x.Op == token.NEQ {
